@@ -309,14 +309,26 @@ def s4(chk: Check, proj: Project) -> None:
 
     srcs = [resolves(p) for p in parts]
     has_str = ps[0] in parts
-    cls_part = [s for s in srcs if "template_cls" in s]
-    eng_part = [s for s in srcs if "engine" in s]
-    cls_ok = bool(cls_part) and all("get_import_path(template_cls)" in s for s in cls_part)
-    eng_ok = bool(eng_part) and all("get_import_path(engine.__class__)" in s or "get_import_path(type(engine))" in s for s in eng_part)
+    # the class and the engine are identified by the OBJECT (an import path is shared by factory-made classes; the class of an
+    # engine says nothing about its builtins / libraries / loaders)
+    cls_part = [(p_, s_) for p_, s_ in zip(parts, srcs) if "template_cls" in s_]
+    eng_part = [(p_, s_) for p_, s_ in zip(parts, srcs) if "engine" in s_]
+
+    def _is_object(src: str, name: str) -> bool:
+        alts = [a.strip() for a in src.split(" | ")]
+        return all(a == name or a == f"{name} or Template" for a in alts)
+
+    cls_ok = bool(cls_part) and all(_is_object(s_, "template_cls") for _p, s_ in cls_part)
+    eng_ok = bool(eng_part) and all(_is_object(s_, "engine") for _p, s_ in eng_part)
+    bare = any(".__name__" in s_ or ".__qualname__" in s_ for _p, s_ in cls_part)
     chk.ob("S4", "template:cached_template:key-has-source", m.loc(assignments(f, kvar)[0][0]) if kdef is not None else m.loc(f), has_str, "the key contains the template string" if has_str else "the key does not contain the template string")
     chk.ob("S4", "template:cached_template:key-has-qualified-class", m.loc(assignments(f, kvar)[0][0]) if kdef is not None else m.loc(f), cls_ok,
-           "the key identifies the Template class by its import path" if cls_ok else f"the Template class enters the key as `{cls_part}`: two different classes with the same bare name share entries, a caller gets an instance of the wrong class")
-    chk.ob("S4", "template:cached_template:key-has-engine-class", m.loc(f), eng_ok, "the key identifies the engine class by its import path")
+           "the key identifies the Template class by the class object itself" if cls_ok else
+           (f"the Template class enters the key as `{[s_ for _p, s_ in cls_part]}`: two different classes with the same bare name share entries, a caller gets an instance of the wrong class" if bare or not cls_part else
+            f"the Template class enters the key as `{[s_ for _p, s_ in cls_part]}`, a derived name: two classes made by one factory function have the same module and qualname, so cached_template('t', Tb) returns an instance of Ta"))
+    chk.ob("S4", "template:cached_template:key-has-engine-class", m.loc(f), eng_ok,
+           "the key identifies the engine by the engine object itself" if eng_ok else
+           f"the engine enters the key as `{[s_ for _p, s_ in eng_part]}`: two Engine instances of one class configured with different builtins / libraries / loaders share an entry, the second caller gets the template compiled for the first engine (output differs from compiling afresh)")
     # each optional key part is guarded by the presence of the very object it is derived from
     for part in parts:
         for st_, v_ in assignments(f, part):
